@@ -225,6 +225,7 @@ def directed(tier):
             [["RPUSH", "k", "a"], ["LPOPRPUSH", "k", "k"]], [["RPUSH", "k", "a"], ["RPOPLPUSH", "k", "k"]],
             [["HSET", "a", "b", "0"], ["RPUSH", "k", "x", "y"], ["LPOPRPUSH", "k", "a"]], [["HSET", "a", "b", "0"], ["RPUSH", "k", "x", "y"], ["RPOPLPUSH", "k", "a"]],
             [["SADD", "k", "a", "b"], ["SMOVE", "k", "k", "a"]], [["SET", "k", "v"], ["RENAME", "k", "k"]],
+            [["SET", "a", "v"], ["RPUSH", "k", "x"], ["LPOPRPUSH", "k", "a"]], [["SET", "a", "v"], ["RPUSH", "k", "x"], ["RPOPLPUSH", "k", "a"]],
             [["SADD", "k", "a", "b"], ["SPOP", "k", "5"]], [["HSET", "k", "f", "x"], ["HINCRBY", "k", "f", "1"]], [["HSET", "k", "f", "x"], ["HINCRBYFLOAT", "k", "f", "1"]], [["SET", "k", "v"], ["HINCRBYFLOAT", "k", "f", "1"]],
         ]
         for j, seq in enumerate(extra):
